@@ -98,6 +98,33 @@ def reduceOp [Inhabited α] (better : α → α → Bool) (t : Tensor α) (axes 
       if prod newShape = prod out.shape then .ok { out with shape := newShape } else .error .shape
     else .ok out
 
+/-- the scalar operations gorgonia's softmax lane kernels use; instantiated with `Float` by the driver
+(`DriverLib/ReduceOps.lean`) and with `ℝ` by `Theorems/C09b.lean` -/
+structure LaneArith (α : Type) where
+  exp : α → α
+  log : α → α
+  add : α → α → α
+  sub : α → α → α
+  mul : α → α → α
+  div : α → α → α
+  zero : α
+  one : α
+  gt : α → α → Bool
+
+/-- gorgonia's Softmax lane kernel: running maximum started from `anchor` and compared with the lane's
+elements 1…n-1; exponentials of the shifted values; scaling by the reciprocal of their sum -/
+def softmaxLaneG (A : LaneArith α) (anchor : α) (l : List α) : List α :=
+  let m := l.tail.foldl (fun a b => if A.gt b a then b else a) anchor
+  let e := l.map fun x => A.exp (A.sub x m)
+  let s := A.div A.one (e.foldl A.add A.zero)
+  e.map fun x => A.mul x s
+
+/-- gorgonia's LogSoftmax lane kernel -/
+def logSoftmaxLaneG (A : LaneArith α) (anchor : α) (l : List α) : List α :=
+  let m := l.tail.foldl (fun a b => if A.gt b a then b else a) anchor
+  let s := (l.map fun x => A.exp (A.sub x m)).foldl A.add A.zero
+  l.map fun x => A.sub (A.sub x m) (A.log s)
+
 /-- `tensor.SoftMax(t, axis)` / `LogSoftMax`: a lane function applied along `axis`. The lane function
 receives, besides the lane, the value gorgonia starts its running maximum from: for an inner axis
 that is the lane's first element, but for the **last** axis it is `xArr[0]`, the first element of the
